@@ -3,7 +3,9 @@ package main
 // Mutators (C17): where the database of a node can be changed from.
 //
 //   storeSites     every call, in package store, of a method that can change the SQLite
-//                  database (Execute, Request, Swap, Vacuum, Optimize, … on `s.db` / `db`) and of
+//                  database (Execute, Request, Swap, Vacuum, Optimize, Checkpoint … on `s.db` / `db`), of a
+//                  function that creates / opens / deletes database files (sql.OpenSwappable,
+//                  sql.RemoveFiles, createDBOnDisk) and of
 //                  the command processor (`Process`, which applies a log entry), as
 //                  (file, enclosing function, callee)
 //   outsideDbCalls every use of package `db` (imported from …/rqlite/v10/db) in http/ and
@@ -21,8 +23,14 @@ import (
 var mutatingMethods = map[string]bool{
 	"Execute": true, "ExecuteWithContext": true, "ExecuteStringStmt": true, "ExecuteStringStmtWithTimeout": true,
 	"Request": true, "RequestWithContext": true, "RequestStringStmts": true, "RequestStringStmtsWithTimeout": true,
-	"Swap": true, "Vacuum": true, "Optimize": true, "OptimizeWithMask": true,
+	"Swap": true, "Vacuum": true, "Optimize": true, "OptimizeWithMask": true, "Checkpoint": true,
 }
+
+// functions of package db (imported as sql in store) and of package store itself that create,
+// open or delete database files
+var fileLevelFuncs = map[string]bool{"sql.RemoveFiles": true, "sql.OpenSwappable": true, "sql.Open": true,
+	"sql.OpenWithDriver": true, "createDBOnDisk": true}
+
 
 func init() {
 	register("Mutators", func(x *X) {
@@ -43,6 +51,10 @@ func init() {
 				ast.Inspect(fd.Body, func(n ast.Node) bool {
 					c, ok := n.(*ast.CallExpr)
 					if !ok {
+						return true
+					}
+					if fileLevelFuncs[x.Src(c.Fun)] {
+						sites = append(sites, site{fname, fd.Name.Name, x.Src(c.Fun)})
 						return true
 					}
 					sel, ok := c.Fun.(*ast.SelectorExpr)
